@@ -37,7 +37,7 @@ type c03Scen struct {
 }
 
 func genC03(t *rapid.T) c03Scen {
-	s := c03Scen{V: rapid.SampledFrom([]int{4, 5, 5}).Draw(t, "v"), MI: rapid.SampledFrom([]int{1, 2, 3, 5, 100}).Draw(t, "mi"),
+	s := c03Scen{V: rapid.SampledFrom([]int{3, 4, 5, 5, 5}).Draw(t, "v"), MI: rapid.SampledFrom([]int{1, 2, 3, 5, 100}).Draw(t, "mi"),
 		SQ: byte(rapid.IntRange(1, 2).Draw(t, "sq"))}
 	rms := []int{0, 1, 2, 3, 5}
 	if s.V == 5 {
@@ -214,6 +214,9 @@ func (r *c03Run) settle(ms int) {
 }
 
 func runC03(s c03Scen, c *ev.Case) *ev.Violation {
+	if s.V == 3 {
+		c.Label("mqtt31_client")
+	}
 	cfg := fixture.BaseConfig()
 	cfg.MQTT.MaxInflight = uint16(s.MI)
 	cfg, cleanupBackend, bv := withBackend(cfg, s.Redis, c)
